@@ -1,5 +1,5 @@
 (* Entry points evaluated by the harness-written case files for C01 / C05 (one per pool kind). *)
-From Coq Require Import NArith List.
+From Coq Require Import NArith List Bool.
 From Verif Require Import Base.Check Model.PoolMap Model.Geometry Model.PoolSpec Model.Bitmap.
 Import ListNotations.
 Local Open Scope N_scope.
@@ -81,3 +81,52 @@ Definition run_hash (prop : N) (cs : list run_hash_case) : list (list N) :=
      map (fun row => match row with _ :: v => fst ic :: v | [] => [] end)
          (check_all HashAlloc.step (accept (hash_scfg prop c)) out_eqb 1 [(hinit c, sinit, unb_trace (h_base c) (snd (snd ic)))]))
      (combine (map N.of_nat (seq 1 (length cs))) cs)).
+
+(* per-case sanity of a free-list universe: no duplicates, every unit strictly inside the CIDR (the
+   network address is never a unit); a failing universe is reported as a tie-1 mismatch at step 999999 *)
+Definition fl_univ_ok (k : N) (a : list N) (univ : list N) : bool :=
+  nodupb univ &&
+  match k, a with
+  | 3, [base; ppl; dlen] =>
+      forallb (fun u => (base <=? u) && (u + 2 ^ (128 - dlen) <=? base + 2 ^ (128 - ppl)) && ((u - base) mod 2 ^ (128 - dlen) =? 0)) univ
+  | 2, base :: ppl :: _ => forallb (fun u => (base <? u) && (u <? base + 2 ^ (128 - ppl))) univ
+  | _, base :: ppl :: _ => forallb (fun u => (base <? u) && (u <? base + 2 ^ (32 - ppl))) univ
+  | _, _ => true
+  end.
+Definition run_freelist_checked (prop : N) (cs : list run_freelist_case) : list (list N) :=
+  run_freelist prop cs ++
+  concat (map (fun ic : N * run_freelist_case =>
+     let k := fst (fst (snd ic)) in let a := snd (fst (snd ic)) in
+     if fl_univ_ok k a (snd (fl_univ k a)) then [] else [[fst ic; 999999; 0; 0; 0; 0]])
+     (combine (map N.of_nat (seq 1 (length cs))) cs)).
+Definition run_freelist_checked_case := run_freelist_case.
+
+(* concurrent stress: the Spec invariant evaluated on the final snapshot of a real object that was
+   driven by several goroutines.  case = ((tag, numbers), [(holder, value during, value after)], (allocated, has_stats)).
+   tags 1..5 as fl_univ; 6 bitmap [base; bits; ppl; pl]; 7 epoch [base; ppl; pl; grace] *)
+Definition run_conc_case := ((N * list N) * list (N * N * N) * (N * N))%type.
+Definition conc_scfg (prop tag : N) (a : list N) : scfg :=
+  match tag, a with
+  | 6, [base; bits; ppl; pl] => bitmap_scfg prop {| g_bits := bits; g_base := base; g_ppl := ppl; g_pl := pl |}
+  | 7, [base; ppl; pl; grace] => epoch_scfg prop base ppl pl grace
+  | _, _ => freelist_scfg prop (snd (fl_univ tag a))
+  end.
+Definition conc_verdict (prop : N) (c : run_conc_case) : N :=      (* 0 = fine, else clause + 1 *)
+  let '((tag, a), snap, (al, has)) := c in
+  let base := hd 0 a in
+  let cfg := conc_scfg prop tag a in
+  let finals := map (fun x => unb base (snd x)) snap in
+  if prop =? 1 then
+    if negb (nodupb finals) then 1
+    else if negb (forallb (sc_usable cfg) finals) then 2
+    else if negb (forallb (fun x => snd (fst x) =? snd x) snap) then 3
+    else 0
+  else if negb (has =? 0) && negb (al =? N.of_nat (length snap)) then 7
+  else if sc_cap cfg <? N.of_nat (length snap) then 4
+  else 0.
+Definition run_conc (prop : N) (cs : list run_conc_case) : list (list N) :=
+  concat (map (fun ic : N * run_conc_case =>
+     match conc_verdict prop (snd ic) with
+     | 0 => []
+     | cl => [[fst ic; 0; 1; cl; 0; 0]]
+     end) (combine (map N.of_nat (seq 1 (length cs))) cs)).
